@@ -43,3 +43,4 @@ Example C16_nonvacuous :
   let s := run 256 (init_sys 255 [[inc; inc]; [inc]]) [0; 1; 0; 1; 1; 0; 0]%nat in
   mem s = 2 /\ length (hist s) = 3%nat /\ map e_tid (hist s) = [0; 1; 0]%nat.
 Proof. vm_compute. repeat split; reflexivity. Qed.
+Print Assumptions C16_nonvacuous.
